@@ -5,6 +5,7 @@ package main
 import (
 	"fmt"
 	"sort"
+	"strings"
 
 	"github.com/Azbesciak/RealDecisionMaker/lib/model"
 )
@@ -347,6 +348,11 @@ func c04Biased(c *caseCtx) {
 	c.count("evaluations", 1)
 	if !d.OK {
 		c.count("rejected", 1)
+		if strings.HasPrefix(d.Err, "marshal:") {
+			// the method did return a ranking, but one that cannot be written as JSON: utilities that are not numbers
+			// (NaN, Inf) have no order, so "non-increasing value" cannot hold
+			c.violate("utilities-not-numbers", "the ranking returned by the library carries utilities that are not finite numbers: "+d.Err, M{"request": g.M})
+		}
 		return
 	}
 	es, ok := entriesOfView(d.View)
